@@ -51,7 +51,7 @@ CC = [0.0, 0.2, 1.0]
 def _tier(tier):
     if tier == "quick":
         return dict(full=[(3, 6)], partial=[(4, 5, 1)], y0_partial=2)  # (n, patterns); (n, max edges, patterns)
-    return dict(full=[(3, 6), (4, 3)], partial=[], y0_partial=None)
+    return dict(full=[(3, 6), (4, 4)], partial=[], y0_partial=None)
 
 
 def bounds(tier):
